@@ -226,7 +226,9 @@ def gen_case(rng, pid, tier):
         elif r < 0.81:
             # overlapping entries too: removing one of them must leave the instance blacklisted by the other
             ops.append(['blacklist', rng.choice([[], ['p1.a0'], ['p2.*'], ['p1.a1', 'p2.a0'], ['p1.*', 'p1.a0'],
-                                                 ['p1.*'], ['p*.a0', 'p2.*'], ['p2.a0', 'p2.a*']])])
+                                                 ['p1.*'], ['p*.a0', 'p2.*'], ['p2.a0', 'p2.a*']])] +
+                       ([rng.sample(['100-apps_blacklist', '000-allocations', '050-foo', 'junk', '9-allocations',
+                                     '10-apps_blacklist'], rng.randint(1, 4))] if rng.random() < 0.3 else []))
         elif r < 0.83:
             # re-evaluation event; sometimes for an instance deleted from /scheduled whose children watch has
             # not fired yet (the events watch is served first)
@@ -980,6 +982,69 @@ def _install(w):
         return _check_pending_start
     patch(Master, '_check_pending_start', mk_pending)
 
+    # ---- event plumbing (TmVerif.Events): per-call correspondence -------------------------------------------
+    w.ev_log, w.load_calls = [], []
+    _KNOWN_RES = ('allocations', 'apps', 'apps_blacklist', 'servers', 'server_state', 'identity_groups', 'buckets', 'cell')
+
+    def mk_process_events(orig):
+        def process_events(self, events):
+            if not _live(self):
+                return orig(self, events)
+            events = list(events)
+            handled_res = sorted(self.resource_event_handlers)
+            e0 = len(w.ev_log)
+            before = set(w.store.children('/events'))
+            saved = dict(self.resource_event_handlers)
+            for res_, h_ in saved.items():
+                self.resource_event_handlers[res_] = (lambda hh: (lambda node: (w.ev_log.append(node), hh(node))[1]))(h_)
+            try:
+                r = orig(self, events)
+            finally:
+                self.resource_event_handlers.clear()
+                self.resource_event_handlers.update(saved)
+            after = set(w.store.children('/events'))
+            w.run.op('fevs %s %s' % (','.join(events) or '-', ','.join(handled_res) or '-'),
+                     'order=%s del=%s' % (';'.join(w.ev_log[e0:]) or '-', ','.join(sorted(before - after)) or '-'))
+            w.stats['fn:process_events'] += 1
+            return r
+        return process_events
+    patch(Master, 'process_events', mk_process_events)
+
+    def mk_process_scheduled(orig):
+        def process_scheduled(self, scheduled):
+            if not _live(self):
+                return orig(self, scheduled)
+            scheduled = list(scheduled)
+            current = sorted(aid_of(n) for n in self.cell.apps)
+            l0 = len(w.load_calls)
+            r = orig(self, scheduled)
+            now_apps = {aid_of(n) for n in self.cell.apps}
+            w.run.op('fschd %s %s' % (','.join(str(i) for i in current) or '-',
+                                      ','.join(str(aid_of(n)) for n in scheduled) or '-'),
+                     'rm=%s load=%s' % (','.join(str(i) for i in sorted(set(current) - now_apps)) or '-',
+                                        ','.join(str(i) for i in sorted(aid_of(n) for n in w.load_calls[l0:])) or '-'))
+            w.stats['fn:process_scheduled'] += 1
+            return r
+        return process_scheduled
+    patch(Master, 'process_scheduled', mk_process_scheduled)
+
+    def mk_servers_event(orig):
+        def _handle_servers_event(self, node_name):
+            if not _live(self):
+                return orig(self, node_name)
+            listed = self.backend.get_default(z.path.event(node_name), default=[]) or []
+            loaded = sorted(sid_of(n) for n in self.servers)
+            stored = sorted(sid_of(n) for n in self.backend.list(z.SERVERS))
+            r0 = len(w.reload_log)
+            r = orig(self, node_name)
+            w.run.op('fsrvs %s %s %s' % (','.join(str(sid_of(n)) for n in listed) or '-',
+                                         ','.join(str(i) for i in loaded) or '-', ','.join(str(i) for i in stored) or '-'),
+                     'reload=%s' % (','.join(str(i) for i in sorted(sid_of(n) for n in w.reload_log[r0:])) or '-'))
+            w.stats['fn:servers_event'] += 1
+            return r
+        return _handle_servers_event
+    patch(Master, '_handle_servers_event', mk_servers_event)
+
     # ---- the trait code (TmVerif.Traits): per-call correspondence of traits.create_code / traits.encode ----
     tr_mod = w.loader_mod.traits
     w.trait_ids = {tr_mod.INVALID: 0}
@@ -1040,6 +1105,7 @@ def _install(w):
                 return orig(self, appname)
             manifest = self.backend.get_default(z.path.scheduled(appname))
             existed = appname in self.cell.apps
+            w.load_calls.append(appname)
             w.last_assign = None
             r = orig(self, appname)
             app = self.cell.apps.get(appname)
@@ -1918,6 +1984,15 @@ def _apply(case, pid, run, w, op):
         guarded('event:server_state', lambda: w.m.process_events(w.store.children('/events')))
     elif k == 'blacklist':
         w.zput('/blackedout.apps', op[1])
+        for ev in (op[2] if len(op) > 2 else []):
+            # several admin events pending at once, posted in this order: other priorities, a resource nobody
+            # handles, a node that is not an event at all
+            if ev == 'junk':
+                if '/events/junk' not in w.store.nodes:
+                    w.admin.create('/events/junk', b'null')
+            else:
+                w.admin.create('/events/%s-' % ev, b'null', sequence=True)
+            w.stats['event-burst'] += 1
         _post_event_node(w, 'apps_blacklist', None)
         guarded('event:apps_blacklist', lambda: w.m.process_events(w.store.children('/events')))
     elif k == 'running':
